@@ -10,7 +10,7 @@ M = [
  ('rk-stage3-time', 'sampling_method.py', 'k3 = f(x=X + DT / 2 * k2["ode"], u=U, p=P, t=t0+DT/2)', 'k3 = f(x=X + DT / 2 * k2["ode"], u=U, p=P, t=t0+DT)', ['C01']),
  ('rk-weights', 'sampling_method.py', 'X + DT / 6 * (k1["ode"] + 2 * k2["ode"] + 2 * k3["ode"] + k4["ode"])', 'X + DT / 6 * (k1["ode"] + 2 * k2["ode"] + 2 * k3["ode"] + k4["ode"]*1.000001)', ['C01']),
  ('substep-time', 'sampling_method.py', '            t0_local += DT\n', '            t0_local += 0\n', ['C01']),
- ('psys-interval', 'sampling_method.py', '                self.get_p_control_at(stage, k),\n                self.get_p_control_plus_at(stage, k),\n                self.V,', '                self.get_p_control_at(stage, 0),\n                self.get_p_control_plus_at(stage, k),\n                self.V,', ['C01']),
+ ('psys-interval', 'sampling_method.py', "                rep(self.get_p_control_at(stage, k)),\n                rep(self.get_p_control_plus_at(stage, k))] + p_sig", "                rep(self.get_p_control_at(stage, 0)),\n                rep(self.get_p_control_plus_at(stage, k))] + p_sig", ['C01']),
  ('ms-gap-dt', 'multiple_shooting.py', "T=self.control_grid[k + 1] - self.control_grid[k], p=self.get_p_sys(stage, k), z0=self.Z0[k])", "T=self.control_grid[1] - self.control_grid[0], p=self.get_p_sys(stage, k), z0=self.Z0[k])", ['C01']),
  ('ss-t0', 'single_shooting.py', "FF = F(x0=self.X[k], u=self.U[k], t0=self.control_grid[k],", "FF = F(x0=self.X[k], u=self.U[k], t0=self.control_grid[0],", ['C01']),
  ('euler-step', 'sampling_method.py', 'X + DT * k["ode"], poly_coeff, DT * k["quad"]', 'X + DT_control * k["ode"], poly_coeff, DT * k["quad"]', ['C01']),
